@@ -358,6 +358,45 @@ func checkC16(args []string) {
 			run.Violate(key+"|anim-output", nm+": "+msg, nm)
 		}
 	}
+	// muxer outputs with canvases and offsets that use the top byte of their 24-bit fields
+	mt := buildMuxTokens(run.Seed)
+	for i, cv := range [][2]int{{12, 70000}, {66000, 258}, {197637, 515}, {0, 0}} {
+		for nf := 1; nf <= 3; nf++ {
+			m := mux.NewMuxer()
+			if cv[0] > 0 {
+				m.SetCanvasSize(cv[0], cv[1])
+			}
+			m.SetLoopCount(258 + i)
+			for k := 0; k < nf; k++ {
+				o := &mux.FrameOptions{Duration: 70001 + k}
+				if cv[0] == 0 {
+					o.OffsetX = 131588 * (k % 2)
+					o.OffsetY = 2 * k
+				}
+				if err := m.AddFrame(mt.data[1+(k+i)%5], o); err != nil {
+					vx.Fatal2("mux AddFrame: %v", err)
+				}
+			}
+			var buf bytes.Buffer
+			if err := m.Assemble(&buf); err != nil {
+				vx.Fatal2("mux Assemble: %v", err)
+			}
+			v, pan := queryAll(buf.Bytes())
+			nm := fmt.Sprintf("Muxer(canvas=%dx%d,frames=%d)", cv[0], cv[1], nf)
+			if pan != nil {
+				run.Violate("panic|mux-output", nm, nm)
+				continue
+			}
+			run.Eval("mux|" + nm)
+			ew, eh := cv[0], cv[1]
+			if ew == 0 {
+				ew, eh = -1, -1
+			}
+			if key, msg := judgeHeaders(v, false, true, true, ew, eh, nf, 258+i, 1); key != "" {
+				run.Violate(key+"|mux-output", nm+": "+msg, nm)
+			}
+		}
+	}
 	run.Cov["hand_assembled"] = n
 	run.Cov["package_written"] = pw
 	run.Finish()
